@@ -18,9 +18,9 @@ from .. import runs as R
 from ..common import Slice
 
 MODULE = 'PyhmsVerif.Props.C19'
-THEOREMS = ['C19.C19_continue', 'C19.step_good', 'C19.C19_reachable_good']
+THEOREMS = ['C19.C19_continue', 'C19.step_good', 'C19.C19_reachable_good', 'C19.witness_good', 'Witness.accepted', 'Witness.run_exists']
 LEVEL = 'proof'
-LEVEL_TEXT = 'Model side proved, runtime side sampled (partial). Theorems: every invariant used for C01/C03/C04/C06/C07/C08/C11/C12 (well-formedness, in-box log, exact accounting relative to the current counters and log, level limit, generation chaining, nothing-observed-forgotten, log coverage, elitism pairs) is inductive from ANY state that satisfies it, not only from a freshly constructed tree (C19_continue: any accepted continuation of any length from a good state ends in a good state, old demes in place, inactive ones frozen, histories only extended), and every reachable state is good (C19_reachable_good) — so every state at which a snapshot can be taken is a valid starting point and the continued run keeps the tree invariants. Tie / runtime side: pickle_dump + pickle_load at every boundary of real runs (callable and lambda objectives, all engine mixes): identical snapshot, summary and GSC verdict, live tree and both global RNG states untouched, and the continuation of the LOADED tree is monitored (structure, level limit, accounting relative to restored counters, never-worsening best).'
+LEVEL_TEXT = 'Model side proved, runtime side sampled (partial). Theorems: every invariant used for C01/C03/C04/C06/C07/C08/C11/C12 (well-formedness, in-box log, exact accounting relative to the current counters and log, level limit, generation chaining, nothing-observed-forgotten, log coverage, elitism pairs) is inductive from ANY state that satisfies it, not only from a freshly constructed tree (C19_continue: any accepted continuation of any length from a good state ends in a good state, old demes in place, inactive ones frozen, histories only extended), and every reachable state is good (C19_reachable_good) — so every state at which a snapshot can be taken is a valid starting point and the continued run keeps the tree invariants. Tie / runtime side: pickle_dump + pickle_load at every boundary of real runs (callable and lambda objectives, all engine mixes): identical snapshot, summary and GSC verdict, live tree and both global RNG states untouched, and the continuation of the LOADED tree is monitored (structure, level limit, accounting relative to restored counters, never-worsening best). Non-vacuity: Witness.accepted / run_exists — a concrete run (two-level tree that sprouts a child and returns) is accepted event by event by Tree.step, checked by kernel evaluation (decide +kernel); C19.witness_good applies the run-level theorems to it.'
 LEVEL_NOTE = 'Trusted: Lean kernel + standard axioms; that dill really restores the object graph (CMA-ES internals, sampler state, SHADE memory) is runtime behaviour no model can exhibit — it is checked differentially on sampled runs, not proved. In the model a snapshot is the state itself.'
 TECHNIQUE = 'Lean 4 theorems (invariants inductive from any state => restored trees keep the tree invariants) + snapshot/restore differential on real runs at every boundary'
 RULE = "case = (configuration, boundary k): dump+load at that boundary; configurations as in the traced-run generator but untraced (objective = picklable callable or lambda); non-trivial = tree with >= 2 demes at the snapshot point; distinct by (configuration hash, k)"
